@@ -110,6 +110,27 @@ end
 
 def Env.plain (env : Env) : Bool := env.all fun e => e.2.plain
 
+mutual
+/-- every record inside the schema has pairwise distinct field names, none of them `-type` -/
+def Schema.fieldsOk : Schema → Bool
+  | .prim .. => true
+  | .fixed .. => true
+  | .enum .. => true
+  | .ref _ => true
+  | .array items => items.fieldsOk
+  | .map values => values.fieldsOk
+  | .union bs => Schema.fieldsOkList bs
+  | .record _ fs _ => decide ((fs.map Field.name).Nodup) && !(fs.map Field.name).contains "-type" && Schema.fieldsOkFields fs
+def Schema.fieldsOkList : List Schema → Bool
+  | [] => true
+  | s :: rest => s.fieldsOk && Schema.fieldsOkList rest
+def Schema.fieldsOkFields : List Field → Bool
+  | [] => true
+  | .mk _ t _ _ :: rest => t.fieldsOk && Schema.fieldsOkFields rest
+end
+
+def Env.fieldsOk (env : Env) : Bool := env.all fun e => e.2.fieldsOk
+
 /-- `not ("-type" in datum and datum["-type"] != name)` -/
 def typeHintOk (kv : List (Val × Val)) (name : String) : Bool :=
   match dictGetV kv "-type" with
